@@ -39,15 +39,62 @@ func rootCallOf(t *Term) *Term {
 }
 
 func errOrigin(st *fstate, t *Term) *Term {
-	t = rootCallOf(t)
-	if t != nil && t.K == "var" {
-		vk := t.Key()
-		for _, k := range sortedKeys(st.facts) {
-			fc := st.facts[k]
-			if fc.S == "def" && len(fc.A) >= 2 && fc.A[0].Key() == vk {
-				return rootCallOf(fc.A[1])
+	for depth := 0; depth < 6 && t != nil; depth++ {
+		// the value a helper (interpreted in place) returned: eq(res(i, call), value) / def(res(i, call), origin, j)
+		if t.K == "res" || t.K == "call" || t.K == "mcall" {
+			r := t
+			if t.K != "res" {
+				r = mk("res", "0", t)
+			}
+			rk := r.Key()
+			var next *Term
+			for _, k := range sortedKeys(st.facts) {
+				fc := st.facts[k]
+				if fc.S == "eq" && len(fc.A) == 2 && fc.A[0].Key() == rk {
+					next = fc.A[1]
+					break
+				}
+				if fc.S == "def" && len(fc.A) >= 2 && fc.A[0].Key() == rk {
+					next = fc.A[1]
+					break
+				}
+			}
+			if next != nil {
+				t = next
+				continue
 			}
 		}
+		t = rootCallOf(t)
+		if t != nil && t.K == "var" {
+			vk := t.Key()
+			var next *Term
+			for _, k := range sortedKeys(st.facts) {
+				fc := st.facts[k]
+				if fc.S == "def" && len(fc.A) >= 2 && fc.A[0].Key() == vk {
+					next = fc.A[1]
+					break
+				}
+			}
+			if next == nil {
+				return t
+			}
+			t = next
+			continue
+		}
+		// a call of a helper whose returned value is recorded in the state
+		if t != nil && (t.K == "call" || t.K == "mcall") {
+			rk := mk("res", "0", t).Key()
+			found := false
+			for _, fc := range st.facts {
+				if (fc.S == "eq" || fc.S == "def") && len(fc.A) >= 2 && fc.A[0].Key() == rk {
+					found = true
+				}
+			}
+			if found {
+				continue
+			}
+		}
+		return t
 	}
 	return t
 }
@@ -61,7 +108,7 @@ func init() {
 		o := errOrigin(st, a[0])
 		return o != nil && o.K == "call" && gerrFuncs[o.S]
 	}
-	const registered = "(true(slices.Contains($client.RedirectURIs(), $uri)) || (is($client, HasRedirectGlobs) && inloop($g, _.RedirectURIGlobs()) && def($m, doublestar.Match($g, $uri), 0) && ok(doublestar.Match($g, $uri)) && true($m)))"
+	const registered = "(member($uri, $client.RedirectURIs()) || (is($client, HasRedirectGlobs) && some(_.RedirectURIGlobs(), true(res(0, doublestar.Match(ELEM, $uri))))))"
 	const validated = "ok(op.ValidateAuthReqRedirectURI($client, $authReq.RedirectURI, $authReq.ResponseType))"
 	obs := []Ob{
 		// --- matching: only ==, opted-in glob, loopback equalURI
